@@ -52,6 +52,7 @@ pub struct Stats {
     pub displays: u64,
     pub generate_calls: u64,
     pub generated_texts_not_parsed: u64,
+    pub generated_offsets_compared: u64,
     pub generated_bytes: u64,
     pub max_variants_seen: u64,
     pub max_data_in_variant: u64,
@@ -227,6 +228,39 @@ pub fn parse_generated(text: &str) -> (Option<usize>, Vec<usize>) {
         }
     }
     (max_size, aligns)
+}
+
+/// Offsets that the generated text hands to the buffer primitives (`read` / `write` / `get` /
+/// `get_mut`). Returns `None` as soon as one of them is not a plain integer literal (the text is
+/// then not understood and decides nothing).
+pub fn offsets_in_generated(text: &str) -> Option<BTreeSet<usize>> {
+    let mut out = BTreeSet::new();
+    for line in text.lines() {
+        let arg: Option<&str> = if let Some(i) = line.find("data.write(") {
+            line[i + "data.write(".len()..].split(',').next()
+        } else if let Some(i) = line.find("data.read(") {
+            line[i + "data.read(".len()..].split(')').next()
+        } else if line.contains("data.get::<") || line.contains("data.get_mut::<") {
+            line.rfind(">(").and_then(|i| line[i + 2..].split(')').next())
+        } else {
+            None
+        };
+        if let Some(a) = arg {
+            let a = a.trim();
+            // a literal as the compiler reads it: digits, `_` separators, optional `usize`
+            let a = a.strip_suffix("usize").unwrap_or(a);
+            if a.is_empty() || !a.chars().all(|c| c.is_ascii_digit() || c == '_') || a.starts_with('_') {
+                return None;
+            }
+            match a.replace('_', "").parse::<usize>() {
+                Ok(n) => {
+                    out.insert(n);
+                }
+                Err(_) => return None,
+            }
+        }
+    }
+    Some(out)
 }
 
 /// Runs one valid history on the native builder with the layout monitors (C01, C02, C03, C13).
@@ -493,6 +527,30 @@ pub fn check_definition(
                 )),
                 Ok(text) => {
                     stats.generated_bytes += text.len() as u64;
+                    // the offsets the generated code uses are the offsets of the definition
+                    match offsets_in_generated(&text) {
+                        None => stats.generated_texts_not_parsed += 1,
+                        Some(used) => {
+                            let defined: BTreeSet<usize> = all_facts.iter().flatten().map(|f| f.offset).collect();
+                            stats.generated_offsets_compared += used.len() as u64;
+                            for u in used.difference(&defined) {
+                                out.push(Violation::new(
+                                    "C04",
+                                    "generated-code-uses-an-offset-no-datum-has",
+                                    format!("fragments {}: offset {} is handed to the record buffer, the definition has data at {:?}", FRAGSETS[fragset], u, defined.iter().take(40).collect::<Vec<_>>()),
+                                    hist,
+                                ));
+                            }
+                            for d in defined.difference(&used) {
+                                out.push(Violation::new(
+                                    "C04",
+                                    "datum-offset-never-used-by-generated-code",
+                                    format!("fragments {}: the datum at offset {} is never accessed at that offset", FRAGSETS[fragset], d),
+                                    hist,
+                                ));
+                            }
+                        }
+                    }
                     let (ms, aligns) = parse_generated(&text);
                     match ms {
                         // the text could not be parsed: decides nothing (the compiled modules of
